@@ -121,6 +121,8 @@ def jobs(tier):
     add(1, 2, -1, 16, wfail=2)           # second send fails, fail-direct
     add(1, 2, -1, 8, down=2)             # thread 1 not running, force
     add(1, 2, -1, 0, down=1)
+    add(1, 2, -1, 1)                     # outside caller passes SELF_SKIP: nobody is skipped (seeded change C10-selfskip-outside was missed without it)
+    add(0, 2, -1, 3)                     # outside caller, SELF_SKIP|SELF_DIRECT, async
     add(1, 2, 0, 1)                      # pool thread, self-skip
     add(1, 2, 0, 2)                      # pool thread, self-direct
     add(1, 3, 1, 1, wfail=2)
@@ -136,6 +138,7 @@ def jobs(tier):
     add(2, 2, 0, 0, wfail=3)             # every send fails: ESPIPE
     add(2, 2, 0, 1)
     add(2, 2, 1, 2, wfail=1)
+    add(2, 2, 1, 2)                      # highest-numbered pool thread calls with SELF_DIRECT, every send succeeds
     add(2, 2, 0, 0, down=2)
     add(2, 2, -1, 0)                     # refused
     add(2, 3, 1, 0, wfail=4)
@@ -153,7 +156,7 @@ def jobs(tier):
         return out
     # --- thorough: all masks / flag sets for 2 threads, more 3-thread shapes
     for caller in (-1, 0, 1):
-        skips = (0,) if caller < 0 else (0, 1, 2, 3)
+        skips = (0, 1, 2, 3)
         for fl in skips:
             for extra in (0, 8, 16, 24):
                 for wfail in range(8):
